@@ -298,6 +298,98 @@ def pax_fields_stage(tools, work, rep, ev, tier, cfg):
     return n
 
 
+def exclude_stage(tools, work, rep, ev, tier, rng, cfg):
+    """spec/TarExclude.tla: archives of <= 3 members x --exclude-dir globs x --root-becomes: exactly the matching members are missing from
+    the image, the members behind a skipped file are still read from the right place (contents), directories that are only implied
+    have the default attributes."""
+    import tarfmt
+    C = {"Emit": False, "MaxEntries": 3, "StarStopsAtSlash": False, "ExcludeTakesSubtree": False}
+    INV = ["OnlyMatchesDropped", "NoExcludeNoChange", "StarCrossesSlash"]
+    write_cfg(cfg, init="Init", nxt="Next", constants=C, invariants=INV, deadlock=False)
+    r = run_tlc("TarExclude", cfg, workers=8, timeout=900)
+    ev.tlc(r, "TarExclude")
+    if not r["ok"]:
+        print("MODEL-FAILURE: TarExclude violates %s" % r["violated"])
+        return None
+    for dev, want in (("StarStopsAtSlash", "StarCrossesSlash"), ("ExcludeTakesSubtree", "OnlyMatchesDropped")):
+        write_cfg(cfg, init="Init", nxt="Next", constants=dict(C, **{dev: True}), invariants=INV, deadlock=False)
+        r = run_tlc("TarExclude", cfg, workers=8, timeout=900)
+        ev.tlc(r, "dev TarExclude " + dev)
+        if r["violated"] != want:
+            print("SELF-CHECK-FAILED: TarExclude deviation %s: %s" % (dev, r["violated"]))
+            return None
+    write_cfg(cfg, init="Init", nxt="Next", constants=dict(C, Emit=True), invariants=["EmitOK"], deadlock=False)
+    r = run_tlc("TarExclude", cfg, workers=4, timeout=900, heap="8g")
+    cases = bpbind.parse_emitted(r["out"])
+    if len(cases) < 20000:
+        print("SELF-CHECK-FAILED: TarExclude emitted %d cases" % len(cases))
+        return None
+    rng.shuffle(cases)
+    withg = [c for c in cases if c["gs"]]
+    cases = withg[:900 if tier == "quick" else len(withg)] + [c for c in cases if not c["gs"]][:100 if tier == "quick" else 2000]
+    d = work + "/excl"
+    os.makedirs(d, exist_ok=True)
+
+    def do(i):
+        c = cases[i]
+        arch = b""
+        content = {}
+        for k, e in enumerate(c["arch"]):
+            name = "/".join(e["path"])
+            if e["kind"] == "dir":
+                arch += tarfmt.header((name + "/").encode(), b"5", mode=0o750, uid=5, gid=6, mtime=1000)
+            else:
+                body = ("member %d of %s\n" % (k, name)).encode() * (40 + 30 * k)
+                content[tuple(e["path"])] = body
+                arch += tarfmt.header(name.encode(), b"0", size=len(body), mode=0o640, uid=5, gid=6, mtime=1000) + tarfmt.pad(body)
+        arch += tarfmt.terminator()
+        img = "%s/e%d.sqfs" % (d, i)
+        args = [tools + "/tar2sqfs", "-q", "-f"]
+        for g in sorted(c["gs"]):
+            args += ["-E", g]
+        if c["rb"]:
+            args += ["-r", "r"]
+        desc = "tar2sqfs %s on members %s" % (" ".join(args[3:]), ["/".join(e["path"]) + ("/" if e["kind"] == "dir" else "") for e in c["arch"]])
+        try:
+            rc, o, e = sh(args + [img], stdin=arch, timeout=60)
+            if rc < 0 or b"ERROR: AddressSanitizer" in e:
+                return "convert-memory-error", "%s: %s" % (desc, e.decode(errors="replace")[-200:])
+            if c["refused"]:
+                return None if rc != 0 else ("exclude-accepted", "%s: exit 0, specified: refused (the new root is not a directory)" % desc)
+            if rc != 0:
+                return "exclude-refused", "%s: refused: %s" % (desc, e.decode(errors="replace").strip()[-150:])
+            im = sqfsimg.load(img)
+            t = im.tree(with_content=True)
+            got = {}
+            for pth, n in t.items():
+                if not pth:
+                    continue
+                implicit = n["kind"] == "dir" and (n["mode"], n["uid"]) != (0o750, 5)
+                got[tuple(pth.decode().split("/"))] = ("dir" if n["kind"] == "dir" else "file", implicit)
+            want = {tuple(x["path"]): (x["kind"], bool(x["implicit"])) for x in c["out"]}
+            if got != want:
+                return "exclude-tree", "%s: the image holds %s, specified %s" % (desc, sorted(got.items()), sorted(want.items()))
+            for e2 in c["arch"]:
+                p0 = tuple(e2["path"])
+                p1 = p0[1:] if c["rb"] else p0
+                if e2["kind"] == "file" and p1 in want and p0 in content and not want[p1][1] and (not c["rb"] or p0[0] == "r"):
+                    if t["/".join(p1).encode()].get("sha") != vlib.sha(content[p0]):
+                        return "exclude-content", "%s: member %s has other bytes in the image (data of a skipped member not stepped over?)" % (desc, "/".join(p0))
+            return None
+        finally:
+            if os.path.exists(img):
+                os.unlink(img)
+    n, seen = 0, set()
+    with ThreadPoolExecutor(16) as ex:
+        for res in ex.map(do, range(len(cases))):
+            n += 1
+            if res and res[0] not in seen:
+                seen.add(res[0])
+                rep.violation(res[0], res[1])
+    ev.set("exclude_cases_replayed", n)
+    return n
+
+
 def options_stage(tools, work, rep, ev, tier, rng, cfg):
     """spec/TarOpts.tla: archives x tar2sqfs --root-becomes / --no-symlink-retarget, and the fixed image x sqfs2tar
     --subdir / --keep-as-dir / --root-becomes / --no-hard-links; every emitted case on the real converters"""
@@ -695,6 +787,11 @@ def run(tier):
         return 2
     evaluations += n
     nontrivial.update("option-case-%d" % k for k in range(n))
+    xn = exclude_stage(tools, work, rep, ev, tier, rng, cfg)
+    if xn is None:
+        ev.write()
+        return 2
+    evaluations += xn
     # ---- sparse layouts ------------------------------------------------------------------------------------
     n = sparse_cases(work, tools, tier, rep) + sparse_boundaries(work, tools, tier, rep)
     evaluations += n
